@@ -105,6 +105,7 @@ func run(sc *Scenario, path []string, convBin string) (res result) {
 		res.hardErr = fmt.Errorf("harness: %v", w.Errors)
 		return
 	}
+	res.viol = append(res.viol, CheckC20(w)...)
 	s, err := w.Snapshot(pc)
 	if err != nil {
 		res.viol = append(res.viol, V{"C13", "c13.unreadable-state", err.Error()})
@@ -147,6 +148,7 @@ func run(sc *Scenario, path []string, convBin string) (res result) {
 		}
 	}
 	res.viol = append(res.viol, CheckQuiescent(w, q)...)
+	res.viol = append(res.viol, CheckC20(w)...)
 	res.viol = append(res.viol, CheckC06(w, q)...)
 	res.viol = append(res.viol, CheckC10(w, q)...)
 	res.viol = append(res.viol, CheckC13(w, q, allReleased)...)
